@@ -286,7 +286,43 @@ impl Prop for C18 {
 				}
 			}
 		}
-		vec!["every sequence of <= 5 (thorough 6) tokens over {;base64 ; , a/b x = base64 # %2C Zg== :} after 'data:'"]
+		// long payloads (block-wise decoders and validators): every header shape (incl. the forms in which the
+		// comma sits inside an authority) x payload lengths around 64 KiB / 128 KiB, and base64 payloads with a padded
+		// quad ENDING exactly on a block boundary (4 .. 128 KiB) followed by more symbols
+		{
+			let mut gi = 0usize;
+			let headers = ["data:,", "data:a/b,", "data:;base64,", "data:a/b;base64,", "data://m,x:y", "data://m;base64,a@b@c", "data://u@h:1/p,", "data:/p?q,", "data:a/b#f,", "data://[::1]:80,", "data://m,%41:pw", "data://m,u@h/"];
+			for h in headers {
+				for n in [0usize, 100, 4096, 65_530, 65_535, 65_536, 65_537, 70_000, 131_072, 131_080, 200_000] {
+					for fill in ["a", "A", "QUJD"] {
+						gi += 1;
+						if gi % nshards != shard {
+							continue;
+						}
+						let mut t = String::from(h);
+						while t.len() - h.len() + fill.len() <= n {
+							t.push_str(fill);
+						}
+						if !f(Case { input: Input::from_bytes(t.into_bytes()) }, true) {
+							return vec![];
+						}
+					}
+				}
+			}
+			for boundary in [4usize, 8, 64, 1024, 4096, 8192, 16_384, 32_768, 65_536, 131_072] {
+				for (pad, after) in [("QQ==", 0usize), ("QQ==", 1), ("QQ==", 5), ("QUI=", 1), ("QUI=", 300), ("QQ==", 20_000)] {
+					gi += 1;
+					if gi % nshards != shard {
+						continue;
+					}
+					let t = format!("data:;base64,{}{}{}", "QUJD".repeat(boundary / 4 - 1), pad, "QUJD".repeat(after));
+					if !f(Case { input: Input::from_bytes(t.into_bytes()) }, true) {
+						return vec![];
+					}
+				}
+			}
+		}
+		vec!["12 header shapes (incl. authority forms) x payloads of 0 .. 200 000 bytes x 3 fillers; base64 payloads with a padded quad ending on every block boundary 4 B .. 128 KiB followed by 0 .. 80 000 more symbols", "every sequence of <= 5 (thorough 6) tokens over {;base64 ; , a/b x = base64 # %2C Zg== :} after 'data:'"]
 	}
 
 	fn floors(_tier: Tier) -> Vec<(&'static str, u64)> {
